@@ -219,5 +219,7 @@ func matchRequirement(req VersionKey, versions []Version) []Version {
 		// TODO: use the attributes properly
 		matches = append(matches, v2)
 	}
+	// The list can be in any order; the result must be in version order.
+	SortVersions(matches)
 	return matches
 }
